@@ -123,12 +123,6 @@ var kC02Align = run.NewKind("c02.alignment", func(c *run.Ctx, t c02Align) *run.F
 		}
 		got, err := model.Getpath(in, q)
 		if err != nil {
-			if strings.Contains(err.Error(), "applied to string") {
-				// gojq lets .[i] / .[i:j] navigate into strings; such positions are not paths (getpath and
-				// setpath reject them in jq and gojq alike), so the statement does not cover them
-				c.Inconclusive("position-inside-a-string")
-				return nil
-			}
 			if _, un := err.(*model.Unsupported); un {
 				c.Inconclusive("unsupported-by-model")
 				return nil
@@ -137,6 +131,11 @@ var kC02Align = run.NewKind("c02.alignment", func(c *run.Ctx, t c02Align) *run.F
 		}
 		if run.Canon(got) != run.Canon(vals.Vals[i]) {
 			return run.Failf("path(%s) on %s: path #%d is %s, getpath gives %s, but output #%d of the expression is %s", t.P, run.Clip(run.Canon(in)), i, run.Canon(q), run.Clip(run.Canon(got)), i, run.Clip(run.Canon(vals.Vals[i])))
+		}
+		// ... and the library's own getpath reads the emitted path back to the same value
+		gp := evalVars("getpath($q)", in, []string{"$q"}, []any{q}, defBudget)
+		if gp.End != run.EndOK || len(gp.Vals) != 1 || run.Canon(gp.Vals[0]) != run.Canon(vals.Vals[i]) {
+			return run.Failf("path(%s) on %s emits %s for output #%d (%s), but getpath of that path gives %s", t.P, run.Clip(run.Canon(in)), run.Canon(q), i, run.Clip(run.Canon(vals.Vals[i])), run.TraceDesc(gp))
 		}
 	}
 	if paths.End == run.EndBudget || vals.End == run.EndBudget || paths.End == run.EndLimit || vals.End == run.EndLimit {
